@@ -41,7 +41,7 @@ def find_diff_start(a: "Fragment", b: "Fragment", pos: int) -> int | None:
                 return pos + j
         if child_a.content.size or child_b.content.size:
             inner = find_diff_start(child_a.content, child_b.content, pos + 1)
-            if inner:
+            if inner is not None:
                 return inner
         pos += child_a.node_size
         i += 1
